@@ -106,6 +106,55 @@ func blsTranscript(r *rand.Rand, n int) {
 	// seeded Joint-Feldman runs, synchronous delivery
 	dkgRun(r, 3, 1)
 	dkgRun(r, 6, 2)
+	dkgWide(r)
+}
+
+// dkgWide: one dealer, the largest group (254), a few simulated receivers incl. the highest indices: every
+// receiver derives all 254 public key shares from the vector (small-exponent multiplications by 1..254 in G2)
+func dkgWide(r *rand.Rand) {
+	const dn, dt = 254, 3
+	var logs []string
+	net := &network{}
+	ids := []int{0, 1, 127, 128, 169, 170, 171, 200, 253}
+	inst := map[int]crypto.DKGState{}
+	for _, i := range ids {
+		d, err := crypto.NewFeldmanVSS(dn, dt, i, &proc{i, net, &logs}, 0)
+		if err != nil {
+			panic(err)
+		}
+		inst[i] = d
+	}
+	seed := rb(r, 32)
+	for _, i := range ids {
+		if err := inst[i].Start(seed); err != nil {
+			panic(err)
+		}
+	}
+	for _, mm := range net.queue {
+		for _, j := range ids {
+			if j == mm.from {
+				continue
+			}
+			if mm.to == -1 {
+				_ = inst[j].HandleBroadcastMsg(mm.from, mm.data)
+			} else if mm.to == j {
+				_ = inst[j].HandlePrivateMsg(mm.from, mm.data)
+			}
+		}
+	}
+	for _, i := range ids {
+		x, Y, ys, err := inst[i].End()
+		if err != nil {
+			emits(fmt.Sprintf("dkg_wide_end_%d", i), seed, "error: "+err.Error())
+			continue
+		}
+		all := ""
+		for _, y := range ys {
+			all += hex.EncodeToString(y.Encode()[:6])
+		}
+		emits(fmt.Sprintf("dkg_wide_end_%d", i), seed, hex.EncodeToString(x.Encode())+" "+hex.EncodeToString(Y.Encode()[:12])+" "+all)
+	}
+	emits("dkg_wide_logs", seed, fmt.Sprint(logs))
 }
 
 func dkgRun(r *rand.Rand, dn, dt int) {
